@@ -7,7 +7,7 @@ import os
 from . import adapter, par, tlc
 
 
-def render(st):
+def render(st, twin=False):
     D = st["D"]
     place = st["place"] if isinstance(st["place"], list) else [st["place"][k] for k in sorted(st["place"])]
     rank = st["rank"]
@@ -67,22 +67,35 @@ def render(st):
             where[("b", i)] = (fname[f], start + bl, lines[bl].index("b%d" % i))
             text += mod
         files[fname[f]] = text
-    pl = ["program main", "  use tm%d" % D, "  implicit none", "  type(t%d) :: v" % D]
+    pl = ["program main", "  use tm%d" % D, "  implicit none"]
+    if twin:
+        # an unrelated type whose components are spelled like the chain's: `w%c1 = v%c1` names two entities on one line
+        pl += ["  type :: other"] + ["    integer :: c%d" % i for i in range(1, D + 1)] + ["  end type other", "  type(other) :: w"]
+        for i in range(1, D + 1):
+            where[("o", i)] = ("main", pl.index("    integer :: c%d" % i), 15)
+    pl.append("  type(t%d) :: v" % D)
     refs = []
     for i in range(1, D + 1):
         pl.append("  v%%c%d = %d" % (i, i))
         refs.append((("c", i), len(pl) - 1, 4))
         pl.append("  call v%%b%d()" % i)
         refs.append((("b", i), len(pl) - 1, 9))
+        if twin:
+            pl.append("  w%%c%d = v%%c%d" % (i, i))
+            refs += [(("o", i), len(pl) - 1, 4), (("c", i), len(pl) - 1, 11)]
+            pl.append("  v%%c%d = w%%c%d + v%%c%d" % (i, i, i))
+            refs += [(("c", i), len(pl) - 1, 4), (("o", i), len(pl) - 1, 11), (("c", i), len(pl) - 1, 18)]
     pl.append("end program main")
     pname = ("0_main.f90" if st["progFirst"] else "z_main.f90")
     files[pname] = "\n".join(pl) + "\n"
+    if twin:
+        where = {k: ((pname,) + v[1:] if v[0] == "main" else v) for k, v in where.items()}
     return files, where, refs, pname, []
 
 
 def check(job):
     st, mode, part = job
-    files, where, refs, pname, privrefs = render(st)
+    files, where, refs, pname, privrefs = render(st, twin=(part == "references" and not st.get("oneModule")))
     d = adapter.mkws(files)
     bad = []
     try:
@@ -100,6 +113,23 @@ def check(job):
                 got = (os.path.basename(adapter.path_from_uri(r["uri"])), r["range"]["start"]["line"], r["range"]["start"]["character"])
             if got != exp:
                 bad.append((tags0 | {"typeres:definition", "member:%s" % m[0], "inheritedLevels:%d" % (st["D"] - m[1])}, {"member": list(m), "expected": exp, "observed": got}))
+        # references / highlight / rename of a component queried at each of its uses in main: the declaration plus exactly
+        # the uses of THAT type's component - a same-named component of the unrelated type on the same line is another entity
+        if part == "references" and not st.get("oneModule"):
+            for m, ln, col in refs:
+                if m[0] == "b":
+                    continue
+                exp = {(pname, l2, c2, c2 + len("c%d" % m[1])) for m2, l2, c2 in refs if m2 == m} | {where[m] + (where[m][2] + len("c%d" % m[1]),)}
+                pp = adapter.posparams(d, pname, ln, col + 1, context={"includeDeclaration": True})
+                r = adapter.result_of(adapter.request(s, c, "textDocument/references", pp))
+                got = set()
+                for x in (r if isinstance(r, list) else []):
+                    got.add((os.path.basename(adapter.path_from_uri(x["uri"])), x["range"]["start"]["line"], x["range"]["start"]["character"], x["range"]["end"]["character"]))
+                if got != exp:
+                    bad.append((tags0 | {"typeres:references", "member:" + ("twinType" if m[0] == "o" else "chain"), "inheritedLevels:%d" % (st["D"] - m[1])}
+                                | ({"missing"} if exp - got else set()) | ({"foreignOccurrence"} if got - exp else set()),
+                                {"member": list(m), "from": [ln, col], "expected": sorted(exp), "observed": sorted(got)}))
+                    break
         # PRIVATE components of every ancestor are accessible (and must resolve) inside the defining module
         for fn, m, ln, col in (privrefs if part == "definition" else []):
             r = adapter.result_of(adapter.request(s, c, "textDocument/definition", adapter.posparams(d, fn, ln, col + 1)))
